@@ -77,3 +77,11 @@ CLAIMS["C15"] = (
     "Found and repaired F-09, F-14, F-22 (and F-02 under C03).",
     "Trusted: the shape recognisers for the decoders (unrecognised rewrites are reported). The case table is decided by constant folding a loop-free "
     "pure function over its finite domain, stated as such in DESIGN.md.")
+CLAIMS["C07"] = (
+    "exact Venn-region evaluation of the character-class algebra + grammar/dispatch/table agreement rules; language equality itself not decided",
+    "Static, necessary conditions only: the class algebra (isdisjoint/split/union/empty/invert in all kind combinations) is decided exactly for all "
+    "sets by interpreting the method bodies over the Boolean algebra of Venn regions (all 16 inhabitation patterns); class-escape and quantifier tables "
+    "agree with the grammar and ASCII; parse-tree dispatches are total over the grammar's regex labels (text and binary) and the NFA builder covers "
+    "every node class; inverted classes exclude end-of-input; repeat desugaring shapes; inclusive set ranges; atom decoding. Passing says the "
+    "mechanism is wired as designed, NOT that Thompson/subset/minimisation/lowering produce the right language - that is not decided by this family.",
+    "Trusted: Venn evaluator (evalx.py) and its reading of `len(x) >= 256` as 'x is the universe'. Not decided: NFA->DFA->minimise->lower pipeline.")
